@@ -1085,12 +1085,20 @@ def rule_clamp(ctx) -> RuleResult:
     def calls_lookup(node):
         return any(isinstance(c, ast.Call) and call_name(c) in lookups for c in ast.walk(node))
 
+    # names of the functions through which a lookup can be reached (they hold one, or call a function that does): a member calling one of
+    # them may have the lookup expanded into its normalised view
+    reach_names = {f.name for f in p.all_functions() if holds(f.node)}
+    grew = True
+    while grew:
+        grew = False
+        for f in p.all_functions():
+            if f.name not in reach_names and any(isinstance(c, ast.Call) and call_name(c) in reach_names for c in ast.walk(f.node)):
+                reach_names.add(f.name)
+                grew = True
     members = [f for f in dh.methods.values()] + [f for pr in dh.props.values() for f in (pr.getter, pr.setter) if f is not None and f.cls is dh]
     for fn in sorted(members, key=lambda f: f.node.lineno):
-        if not (holds(fn.node) or calls_lookup(fn.node)):
-            # a private helper holding the lookup is expanded in its callers' views
-            if not any(isinstance(c, ast.Call) and isinstance(c.func, ast.Attribute) and c.func.attr.startswith("_") for c in ast.walk(fn.node)):
-                continue
+        if not (holds(fn.node) or calls_lookup(fn.node) or any(isinstance(c, ast.Call) and call_name(c) in reach_names for c in ast.walk(fn.node))):
+            continue
         v = ctx.view(fn)
         if not (holds(v.node) or calls_lookup(v.node)):
             continue
